@@ -474,6 +474,10 @@ def r4c_order_sensitive(ctx):
         key = "R4c|%s" % keys[id(s)]
         # any equality test of the element's file_path against a value that is not computed from the element itself
         pins = [c for c in s.path_cmp if c not in ("other", "elem-field:both")]
+        if s.kind == "call" and s.fields == {"name"} and _selects_from_per_file_view(ctx, s):
+            # the per-file view holds one definition per name (R11c): selecting by name from it picks that one, in any order
+            r.ok(sample={"site": s.descr(), "fn": s.fn.id.split("::")[-1], "unique_by": "one entry per name in the per-file view"} if len(r.samples) < 6 else None)
+            continue
         if pins and "file_path" in s.fields:
             r.ok(sample={"site": s.descr(), "fn": s.fn.id.split("::")[-1], "pinned_to": sorted(set(pins))} if len(r.samples) < 6 else None)
         elif key in REVIEWED:
@@ -484,6 +488,43 @@ def r4c_order_sensitive(ctx):
                       aliases=_alts("R4c", s))
     r.floor("order-sensitive selection sites", n, 15)
     return r
+
+
+def _selects_from_per_file_view(ctx, s):
+    """the collection of a selection site is the result of the function that fills the per-file availability cache"""
+    from ..facts import DbInfo
+    from .r3d import fill_functions
+    from .r4 import _iter_source_local
+    db = ctx.memo("dbinfo", lambda: DbInfo(ctx))
+    views = {fid for m, fid in fill_functions(db).items() if "std::vec::Vec<%s>" % sel.DEF in db.maps[m][1]}
+    if not views:
+        return False
+    f = s.fn
+    t = f.blocks[s.bb]["t"]
+    if t[0] != "call" or not t[1]["args"]:
+        return False
+    src = _iter_source_local(f, t[1]["args"][0])
+    seen = set()
+    while src is not None and src not in seen:
+        seen.add(src)
+        ds = f.whole_defs(src)
+        if len(ds) != 1:
+            return False
+        d = ds[0]
+        if d[0] == "call":
+            if d[2].get("res") in views:
+                return True
+            if re.search(r"Deref(Mut)?>?::deref(_mut)?$|::as_ref$|::clone$|::as_slice$|::iter$", d[2].get("res") or "") and d[2]["args"]:
+                src = op_local(d[2]["args"][0])
+                continue
+            return False
+        if d[0] == "assign" and d[3][0] == "use":
+            src = op_local(d[3][1])
+        elif d[0] == "assign" and d[3][0] == "ref":
+            src = place_local(d[3][2])
+        else:
+            return False
+    return False
 
 
 def r5e_same_file_last(ctx):
